@@ -65,5 +65,27 @@ def cmp (a b : ClockTime α) : Nat :=
 /-- `a >= b` as Rust derives it from `partial_cmp` -/
 def ge (a b : ClockTime α) : Bool := cmp a b == 1 || cmp a b == 2
 
+/-- mirrors: clock/time.rs (`ClockTime::from_ticks_u64`: whole ticks, fraction 0) -/
+def fromTicksU64 (n : Nat) : ClockTime α := ⟨n, (0.0 : α)⟩
+
+/-- mirrors: clock/time.rs (`impl AddAssign<u64> for ClockTime`: `self.ticks += ticks`) -/
+def addAssignU64 (t : ClockTime α) (n : Nat) : ClockTime α := { t with ticks := t.ticks + n }
+
+/-- mirrors: clock/time.rs (`impl SubAssign<u64> for ClockTime`: `self.ticks -= ticks`; `none` = u64 underflow) -/
+def subAssignU64 (t : ClockTime α) (n : Nat) : Option (ClockTime α) :=
+  if n ≤ t.ticks then some { t with ticks := t.ticks - n } else none
+
+/-- mirrors: clock/time.rs (`impl AddAssign<f64> for ClockTime`: `*self = *self + ticks`) -/
+def addAssignF64 (t : ClockTime α) (x : α) : ClockTime α := addF64 t x
+
+/-- mirrors: clock/time.rs (`impl SubAssign<f64> for ClockTime`: `*self = *self - ticks`) -/
+def subAssignF64 (t : ClockTime α) (x : α) : ClockTime α := subF64 t x
+
+/-- `a < b`, `a <= b`, `a > b`, `a >= b` as Rust derives them from `partial_cmp`, and the derived `==` (same clock) -/
+def lt (a b : ClockTime α) : Bool := cmp a b == 0
+def le (a b : ClockTime α) : Bool := cmp a b == 0 || cmp a b == 1
+def gt (a b : ClockTime α) : Bool := cmp a b == 2
+def eqv (a b : ClockTime α) : Bool := a.ticks == b.ticks && feq a.fraction b.fraction
+
 end ClockTime
 end K
